@@ -72,7 +72,7 @@ func isCtxErr(v ssa.Value) bool {
 type implications struct{ I1, I2, I3, I4, Timeout bool }
 
 func checkVerdict(ctx *core.Ctx, key string, pos token.Pos, g *ssax.Graph, start ssax.Point, neg func(bool) atomFn, outcome func(success bool) atomFn, extra atomFn, perIter bool, want implications) {
-	live := nilAtom(isCtxErr, true)    // context not expired
+	live := nilAtom(isCtxErr, true)     // context not expired
 	expired := nilAtom(isCtxErr, false) // context expired
 	type row struct {
 		id      string
@@ -210,7 +210,10 @@ func c01Verdicts(ctx *core.Ctx, cmds map[string]*ssa.Function) {
 				if _, c1 := ssax.ConstString(b.X); !c1 {
 					if _, c2 := ssax.ConstString(b.Y); !c2 {
 						// the content comparison: operands derive from file contents, not from the two names
-						if ssax.DerivedFrom(b.X, func(v ssa.Value) bool { c, ok := v.(*ssa.Call); return ok && strings.HasSuffix(ssax.CalleeName(&c.Call), ".ReadFile") }, nil) {
+						if ssax.DerivedFrom(b.X, func(v ssa.Value) bool {
+							c, ok := v.(*ssa.Call)
+							return ok && strings.HasSuffix(ssax.CalleeName(&c.Call), ".ReadFile")
+						}, nil) {
 							eq = b
 						}
 					}
